@@ -23,7 +23,7 @@ TYPEM = ["append-member", "insert-member", "remove-member", "change-member-type"
 
 
 def plan(tier):
-    return {"n": 200 if tier == "quick" else 2500, "floor": 50 if tier == "quick" else 600}
+    return {"n": 200 if tier == "quick" else 800, "floor": 50 if tier == "quick" else 192}
 
 
 def rule(tier):
